@@ -53,4 +53,7 @@ def run(tier="quick", seed=0, use_cache=True):
         {"rule": "NEXT-NULL", "obligation": "first = first->next in PreviousBucket is tested by `while (first)` before PER_USE_OR_RETURN(first, -1)"},
     ]
     res.units = {"translation_units": len(out)}
+    from ..rules import errexc
+    errexc.extend(res, use_cache)
+    res.explanation += " ERR-NOEXC: no error return (-1 / NULL) is reachable through a branch that lumps a callee's non-error value with its error value (e.g. `PreviousBucket(...) <= 0`): a cursor that finds its leaf gone raises IndexError / RuntimeError, never SystemError."
     return res
